@@ -21,6 +21,7 @@
 package main
 
 import (
+	"regexp"
 	"bufio"
 	"bytes"
 	"crypto/sha256"
@@ -120,11 +121,19 @@ func programs(repo, home string) []program {
  "M":{"type":"object","additionalProperties":{"$ref":"#/components/schemas/M2"}},
  "M2":{"type":"object","properties":{"m":{"$ref":"#/components/schemas/M"},"s":{"type":"string","maxLength":3},"self":{"$ref":"#/components/schemas/M2"}}}}}}`)
 	ps = append(ps, program{"reference cycles / all features", cycles, allFeatures})
+	ps = append(ps, program{"order-sensitive shapes / all features", []byte(shapesSpec), allFeatures})
 	for _, f := range []string{"_testdata/positive/sample.json", "_testdata/examples/petstore-expanded.yml", "_testdata/positive/allOf.yml", "_testdata/positive/security.json", "_testdata/positive/webhooks.json", "_testdata/positive/http_responses.json", "_testdata/positive/parameters.json", "_testdata/positive/anyOf.json"} {
 		ps = append(ps, program{f + " / all features", read(filepath.Join(repo, f)), allFeatures})
 	}
 	return ps
 }
+
+// shapesSpec collects constructs whose processing ranges over a map and combines the entries
+// (an entry's treatment depends on what was seen before it): masked and plain media types in one
+// response, one oauth2 scheme in several alternatives with overlapping scopes, several response
+// headers, discriminator mappings, pattern properties, x- extensions, server variables, several
+// webhooks, parameters with content, allOf merges.
+const shapesSpec = grammar.ShapesSpec
 
 // invalid documents: single-fault mutants of two documents (a deterministic subset)
 type invalidDoc struct {
@@ -134,7 +143,7 @@ type invalidDoc struct {
 
 func invalidDocs(repo string) []invalidDoc {
 	var out []invalidDoc
-	bases := map[string][]byte{"custom-unmarshaler spec": []byte(grammar.CustomSpec)}
+	bases := map[string][]byte{"custom-unmarshaler spec": []byte(grammar.CustomSpec), "order-sensitive shapes": []byte(shapesSpec)}
 	for _, f := range []string{"_testdata/positive/allOf.yml", "_testdata/positive/form.json", "_testdata/positive/security.json"} {
 		if b, err := os.ReadFile(filepath.Join(repo, f)); err == nil {
 			bases[f] = b
@@ -166,6 +175,60 @@ func invalidDocs(repo string) []invalidDoc {
 					continue
 				}
 				out = append(out, invalidDoc{fmt.Sprintf("%s: %s at %s", n, muts[mi].Name, ss[si].Path), []byte(st.Emit(c))})
+			}
+		}
+		// the same fault on two sibling members of one mapping: which of the two a diagnostic names
+		// must not depend on the order a map happens to be walked in
+		for si := range ss {
+			p := ss[si].Parent
+			if p.Kind != 'm' || ss[si].Idx != 0 || len(p.Vals) < 2 {
+				continue
+			}
+			// the sites of the first and of the last member of this mapping
+			var last int = -1
+			for sj := range ss {
+				if ss[sj].Parent == p && ss[sj].Idx == len(p.Vals)-1 {
+					last = sj
+				}
+			}
+			if last < 0 {
+				continue
+			}
+			// both names made invalid (a blank and a '!' are refused for component names, parameter
+			// locations, codes, extension names ...)
+			{
+				c := d.Clone()
+				var s2 []docmodel.Site
+				docmodel.Sites(c, "", &s2)
+				cp := s2[si].Parent
+				cp.Keys[0] += " !"
+				cp.Keys[len(cp.Keys)-1] += " !"
+				out = append(out, invalidDoc{fmt.Sprintf("%s: names made invalid at %s and at %s", n, ss[si].Path, ss[last].Path), []byte(st.Emit(c))})
+			}
+			for mi, m := range muts {
+				if m.Name != "null" && m.Name != "retype-string" && m.Name != "dangling-ref" && m.Name != "retype-int" {
+					continue
+				}
+				c := d.Clone()
+				var s2 []docmodel.Site
+				docmodel.Sites(c, "", &s2)
+				if !m.Apply(s2[si]) {
+					continue
+				}
+				// sites after the first mutation may have shifted (a subtree was replaced): find the last member again by path
+				var s3 []docmodel.Site
+				docmodel.Sites(c, "", &s3)
+				done := false
+				for _, x := range s3 {
+					if x.Path == ss[last].Path {
+						done = m.Apply(x)
+						break
+					}
+				}
+				if !done {
+					continue
+				}
+				out = append(out, invalidDoc{fmt.Sprintf("%s: %s at %s and at %s", n, muts[mi].Name, ss[si].Path, ss[last].Path), []byte(st.Emit(c))})
 			}
 		}
 	}
@@ -210,11 +273,14 @@ type genResult struct {
 	Flake  bool              `json:"env_flake,omitempty"`
 }
 
+var panicNoise = regexp.MustCompile(`0x[0-9a-f]+\??|goroutine \d+|\+0x[0-9a-f]+|\(([^()]*, )*[^()]*\)`)
+
 func generate(spec []byte, opts gen.Options, full, perFile bool) (res genResult) {
 	defer func() {
 		res.Ranges = verifrt.Calls()
 		if r := recover(); r != nil {
-			res.Err = fmt.Sprintf("PANIC %v %s", r, firstN(string(debug.Stack()), 600))
+			// addresses and goroutine ids differ between runs: keep the frames only
+			res.Err = fmt.Sprintf("PANIC %v %s", r, firstN(panicNoise.ReplaceAllString(string(debug.Stack()), ""), 600))
 		}
 	}()
 	verifrt.Reset()
@@ -974,7 +1040,7 @@ func main() {
 		"schedule exploration treats a template task between two hooked operations as one step; the side condition (templates only read the generator state) is checked by the deep hash of the whole *gen.Generator before and after WriteSource in the same run",
 		"every run is an execution of the real generator (traces_validated_against_impl counts them); states = distinct scheduler states + history sequences; transitions = scheduler transitions + environment deviations taken",
 		"the free-running -race pass is sampling and reported separately; goimports' subprocess timeouts under load are retried and counted as environment_flakes")
-	r.Finish("1. map orders: 0 deviations, every single deviation (each dynamic range execution over >= 2 keys x {descending, rotated}; thorough also swap-first-two, last-first and all pairs on two programs) and every global order {descending, rotated, last-first} on 13 programs (incl. one made of reference cycles of every shape); ~500 invalid single-fault mutants under 3 global orders (diagnostics). 2. schedules: WriteSource under the controlled scheduler for errgroup limits 2, 3, 24 and preemption bounds 0-2 with state-key pruning (pc, pool contents incl. full backing arrays). 3. deep hash of the generator before/after WriteSource. 4. all sequences of <= 2 generations and a third (thorough: all) of the triples over 6 programs, each in a fresh process, compared with the fresh-process output. distinct non-trivial = deviation run / scheduler state / sequence whose result equalled the reference.")
+	r.Finish("1. map orders: 0 deviations, every single deviation (each dynamic range execution over >= 2 keys x {descending, rotated}; thorough also swap-first-two, last-first and all pairs on two programs) and every global order {descending, rotated, last-first} on 15 programs (incl. one made of reference cycles of every shape and one of order-sensitive shapes: masked + plain media types, one oauth2 scheme in several alternatives, discriminator mappings, pattern properties, extensions); ~500 invalid single-fault mutants under 3 global orders (diagnostics). 2. schedules: WriteSource under the controlled scheduler for errgroup limits 2, 3, 24 and preemption bounds 0-2 with state-key pruning (pc, pool contents incl. full backing arrays). 3. deep hash of the generator before/after WriteSource. 4. all sequences of <= 2 generations and a third (thorough: all) of the triples over 6 programs, each in a fresh process, compared with the fresh-process output. distinct non-trivial = deviation run / scheduler state / sequence whose result equalled the reference.")
 }
 
 // siteOf guesses which construct the two diagnostics disagree about (for finding matchers).
